@@ -1,115 +1,9 @@
-"""Per-property pipelines.  TLC decides; Python only moves files and counts."""
-import json
+"""Per-property pipelines live in p_cXX.py; importing this module registers all of them."""
+import glob
+import importlib
 import os
-import random
 
-from .core import Ctx, Infra, casehash, log
+from .common import PIPELINES
 
-PIPELINES = {}
-
-
-def pipeline(f):
-    PIPELINES[f.__name__.upper()] = f
-    return f
-
-
-def write_ndjson(path, objs):
-    with open(path, "w") as f:
-        for o in objs:
-            f.write(json.dumps(o) + "\n")
-
-
-def read_ndjson(path):
-    return [json.loads(l) for l in open(path) if l.strip()]
-
-
-def sample(rng, xs, k):
-    xs = list(xs)
-    return xs if len(xs) <= k else rng.sample(xs, k)
-
-
-# ----------------------------------------------------------------------------- C14
-@pipeline
-def c14(ctx: Ctx):
-    tier = ctx.tier
-    cases = os.path.join(ctx.scratch, "cases.ndjson")
-    ctx.assumptions = [
-        "TLC and the CommunityModules Json/CSV modules",
-        "the harness's scripted handler, recording ResponseWriter (net/http status-code panic emulated) and request realiser (harness/c14.go)",
-        "one fixed test document (3 operations, response map {200: json schema, 201: no content}); handler alphabet and body tokens as in spec/Middleware.tla",
-        "bodies made of a complete valid JSON document followed by more bytes are outside the universe (Clear)",
-    ]
-    if ctx.replay:
-        v = ctx.replay["violation"]
-        write_ndjson(cases, [dict(cfg=v["cfg"], script=v["script"])])
-    else:
-        # D: the pinned-tree variant of the model must still show the design-level defect (model drift guard)
-        ctx.tlc("MC_C14", "MC_C14_pinned.cfg", expect_violation=True, label="D pinned-model counterexample")
-        # D + F: exhaustive L2 => L1 and generation of every behaviour
-        ctx.tlc("MC_C14", "MC_C14_%s.cfg" % tier, label="D/F exhaustive L2=>L1 + generate")
-        n = ctx.unquote(ctx.spec("cases.ndjson"), cases)
-        ctx.exhaustive = True
-        ctx.extra["generator_constants"] = {"MaxCalls": 3 if tier == "quick" else 4}
-        log("[gen] %d behaviours" % n)
-    ctx.build_driver()
-    logp = os.path.join(ctx.scratch, "log.ndjson")
-    ctx.drive(cases, logp)
-    cs = read_ndjson(cases)
-    ctx.evaluations = len(cs)
-    for c in cs:
-        if c["script"] or not c["cfg"]["reqClass"].startswith("valid"):
-            ctx.nontrivial.add(casehash(c))
-    ctx.rule = ("every terminal state of spec/Middleware.tla (all handler call sequences up to MaxCalls over 12 calls x "
-                "strict x 9 request classes x 2 errFunc modes) is one case; non-trivial = gate-failing request or non-empty handler script")
-    rng = random.Random(ctx.seed)
-    ctx.samples = sample(rng, cs, 5)
-    ctx.validate("Trace_C14", "Trace_C14.cfg", logp, run_start=lambda o: o.get("ev") == "cfg")
-
-
-# ----------------------------------------------------------------------------- C01
-def gen_schemas(ctx, cfg, label):
-    """Run the schema generator; returns (cases path, vals path)."""
-    ctx.tlc("Gen_C01", cfg, label=label)
-    cases = os.path.join(ctx.scratch, "cases.ndjson")
-    vals = os.path.join(ctx.scratch, "vals.ndjson")
-    n = ctx.unquote(ctx.spec("cases.ndjson"), cases)
-    ctx.unquote(ctx.spec("vals.ndjson"), vals)
-    log("[gen] %d schemas" % n)
-    return cases, vals
-
-
-@pipeline
-def c01(ctx: Ctx):
-    ctx.assumptions = [
-        "TLC; spec/SchemaSem.tla as the transcription of draft-4/OpenAPI 3.0 keyword semantics (null per the library's documented NullRule)",
-        "harness realiser (abstract schema -> OpenAPI JSON -> real loader) guarded by the rs = s round trip judged by TLC",
-        "numbers are quarters, strings over a small alphabet incl. one astral rune, five fixed patterns; format/discriminator are outside this oracle (C12)",
-    ]
-    if ctx.replay:
-        v = ctx.replay["violation"]
-        cases = os.path.join(ctx.scratch, "cases.ndjson")
-        write_ndjson(cases, [dict(s=v["s"], vals=[v["v"]] if "v" in v else [])])
-        vals = os.path.join(ctx.scratch, "vals.ndjson")
-        write_ndjson(vals, [])
-    else:
-        cases, vals = gen_schemas(ctx, "Gen_C01_%s.cfg" % ctx.tier, "F generate schemas (BFS)")
-        ctx.exhaustive = True
-    ctx.build_driver()
-    logp = os.path.join(ctx.scratch, "log.ndjson")
-    ctx.drive(cases, logp, env={"VERIF_VALS": vals})
-    lines = 0
-    rng = random.Random(ctx.seed)
-    for l in open(logp):
-        o = json.loads(l)
-        lines += 1
-        nv = len(o.get("of", []))
-        ctx.evaluations += 3 * nv
-        verd = set(o.get("of", []))
-        if len(verd) > 1:  # the schema separates the value list: some accepted, some rejected
-            ctx.nontrivial.add(casehash(o["s"]))
-        if rng.random() < 5.0 / 20000:
-            ctx.samples.append(dict(s=o["s"], of="".join(o.get("of", []))))
-    ctx.rule = ("cases = every schema reachable in spec/Gen_C01.tla within (K, KO, W), each judged on the %d-value list of "
-                "spec/SchemaUniverse.tla in 3 forms (VisitJSON float64, VisitJSON json.Number, IsMatching); evaluations counts "
-                "(schema, value, form) judgements; non-trivial = distinct schemas that accept some and reject some values") % 44
-    ctx.validate("Trace_C01", "Trace_C01.cfg", logp, chunk_lines=1200)
+for _f in sorted(glob.glob(os.path.join(os.path.dirname(__file__), "p_c*.py"))):
+    importlib.import_module("." + os.path.basename(_f)[:-3], __package__)
